@@ -11,7 +11,7 @@ import (
 
 // TxMix weights the transaction kinds a TxBuilder draws from.
 type TxMix struct {
-	Pay, SF, FCForm, FCRevise, FCProof, Arb, Foundation  int // v1
+	Pay, SF, FCForm, FCRevise, FCProof, Arb, Foundation                                      int // v1
 	V2Pay, V2Eph, V2SF, V2Form, V2Revise, V2Renew, V2Proof, V2Expire, V2Attest, V2Foundation int
 }
 
@@ -860,6 +860,40 @@ func (b *TxBuilder) Adopt(txns []types.Transaction, v2txns []types.V2Transaction
 			}
 		}
 		b.V2Txns = append(b.V2Txns, txn)
+	}
+}
+
+// Avoid makes the builder keep away from everything the given transactions
+// touch, without making their outputs available: for transactions whose
+// proofs may be out of date.
+func (b *TxBuilder) Avoid(txns []types.Transaction, v2txns []types.V2Transaction) {
+	for _, txn := range txns {
+		for _, in := range txn.SiacoinInputs {
+			b.usedSC[in.ParentID] = true
+		}
+		for _, in := range txn.SiafundInputs {
+			b.usedSF[in.ParentID] = true
+		}
+		for _, r := range txn.FileContractRevisions {
+			b.usedFC[r.ParentID] = true
+		}
+		for _, p := range txn.StorageProofs {
+			b.usedFC[p.ParentID] = true
+		}
+	}
+	for _, txn := range v2txns {
+		for _, in := range txn.SiacoinInputs {
+			b.usedSC[in.Parent.ID] = true
+		}
+		for _, in := range txn.SiafundInputs {
+			b.usedSF[in.Parent.ID] = true
+		}
+		for _, r := range txn.FileContractRevisions {
+			b.usedFC[r.Parent.ID] = true
+		}
+		for _, r := range txn.FileContractResolutions {
+			b.usedFC[r.Parent.ID] = true
+		}
 	}
 }
 
